@@ -219,6 +219,18 @@ func (c *checkSchema) ensureShortcutKeysAreValid(node *schema.ObjectNode) error 
 }
 
 func actualRootType(s, root *schema.Schema) json.Type {
+	return actualRootTypeOnPath(s, root, map[*schema.Schema]struct{}{})
+}
+
+// actualRootTypeOnPath does the job of actualRootType. The path holds the types
+// being resolved right now, a type which refers to itself has no determinable type.
+func actualRootTypeOnPath(s, root *schema.Schema, path map[*schema.Schema]struct{}) json.Type {
+	if _, ok := path[s]; ok {
+		return json.TypeMixed
+	}
+	path[s] = struct{}{}
+	defer delete(path, s)
+
 	t := s.RootNode().Type()
 	if t != json.TypeMixed {
 		return t
@@ -233,7 +245,7 @@ func actualRootType(s, root *schema.Schema) json.Type {
 			if err != nil {
 				return json.TypeMixed
 			}
-			tt = actualRootType(ss, root)
+			tt = actualRootTypeOnPath(ss, root, path)
 			types[tt] = struct{}{}
 		}
 		if len(types) == 1 { // all USER TYPES (example: @aaa | @bbb) have the same type (example: string)
